@@ -17,6 +17,16 @@ generate_penalty / generate_constraint and compares: which list a line lands in,
 term tolerance(r) = 1e-15*(1+|r|) with the right sign under the default locals), the penalty (exactly
 q16/16 in the TAU = 1/4 mode; >= lim and within the tolerance terms above lim in the default mode;
 zero iff every line is satisfied, positive otherwise), and penalty(constraint(x)) == 0.
+
+Spellings and boundary values (rotation deterministic in case index + seed, counted in the evidence, `spellings_replayed`):
+  texts      as in C13 (number formats, white-space layouts incl. the docstring layout, one string / tuple / list of
+             strings, '=' / '=='); run "penlong": multi-digit constants and coefficients (10, 12, 100; m = 10, -12)
+  tolerance  default 1e-15; tol=1/4, rel=0; tol=0 (falsy), rel=1/4 (third reading r16 of the spec, where defined)
+  k          0 (falsy: the penalty vanishes, KZero), 1, 3, 100 as int / float / numpy.int64 / numpy.float64, in the
+             k-units 1, 1/2, 2^-20, 2^30 (k is a factor of the sum by definition); h omitted / 7 / 0 (n = 0: no effect)
+  arguments  nvars given / omitted, locals dict / None / omitted, a single condition as the bare function, ptype forms
+  points     list of float / int / numpy.float64 / numpy.int64, tuple, -0.0, float64 / int64 ndarray (read-only use)
+  units      1; 2^40, 2^60; 2^-30; 2^-400 (texts with =, <=, >= only)
 """
 import zlib
 import sys, random, io, contextlib
@@ -26,20 +36,71 @@ from harness import linrel_common as L
 RULE = ("TLC enumerates every (constraint text, evaluation point) of the bounded class [1-3 lines m*x_i op rhs, 6 comparators, "
         "m in a small set incl. negative, rhs affine/nonlinear catalogue] with the exact condition values and penalties "
         "(4 penalty families x 3 multipliers, two tolerance readings); each is replayed on the real generate_conditions/"
-        "generate_penalty under a rotating variable-name scheme, tolerance mode (default 1e-15 / dyadic 1/4) and, for "
-        "degree-one texts, scale 2^40/2^60; a case = (run, text, point, scheme, mode); non-trivial = at least one line is "
+        "generate_penalty under a rotating SPELLING: variable-name scheme, number format, white-space layout, container of the point "
+        "(lists of float / int / numpy scalars, tuple, -0.0, float64 / int64 ndarray), arguments given or omitted, tolerance mode "
+        "(default 1e-15 / tol=1/4 rel=0 / tol=0 rel=1/4), multiplier k in {0, 1, 3, 100} as int / float / numpy scalar in the k-units "
+        "1, 1/2, 2^-20, 2^30, h given or omitted and, for degree-one texts, the units 2^40, 2^60, 2^-30, 2^-400; a separate run with "
+        "multi-digit constants and coefficients; a case = (run, text, point, scheme, mode); non-trivial = at least one line is "
         "violated or an inequality is exactly on its boundary; distinct = by (run, text, point)")
 
 RUNS = {
     "quick": [("pen1", "sym/MC_LinRel", "MC_LinRel_pen1_quick.cfg", 4),
+              ("penlong", "sym/MC_LinRel", "MC_LinRel_penlong_quick.cfg", 2),
               ("pen2", "sym/MC_LinRelSys", "MC_LinRelSys_pen2_quick.cfg", 6),
               ("pen3", "sym/MC_LinRelTri", "MC_LinRelTri_pen3_quick.cfg", 2)],
     "thorough": [("pen1", "sym/MC_LinRel", "MC_LinRel_pen1_thorough.cfg", 16),
+                 ("penlong", "sym/MC_LinRel", "MC_LinRel_penlong_thorough.cfg", 8),
                  ("pen2", "sym/MC_LinRelSys", "MC_LinRelSys_pen2_thorough.cfg", 16),
                  ("pen3", "sym/MC_LinRelTri", "MC_LinRelTri_pen3_thorough.cfg", 8)],
 }
 
 QUARTER = {"tol": 0.25, "rel": 0}
+# the other legal way of giving the tolerance: tol = 0 (falsy in Python), rel = 1/4 -- reading r16 of LinRel.tla, defined
+# where every strict line has 0 < |rhs| < 4 (TLC: rok)
+TOLZERO = ({"tol": 0, "rel": 0.25}, {"tol": 0.0, "rel": 0.25})
+
+# container spellings of the evaluation point (conditions and penalties only READ it: every container is legal)
+KINDS = ["float", "int", "array", "npfloat", "npint", "intarray", "tuple", "negzero"]
+# containers a generated CONSTRAINT can write into (cross property); an int64 array only where no tolerance term is written
+WRITABLE = ("float", "int", "array", "npfloat", "npint", "negzero")
+# how the multiplier is written, and its unit: k is a factor of the whole sum by definition (LinRel.tla), so
+# k = k_TLC * unit with unit 1/2 (fractional), 2^-20 (tiny), 2^30 (huge) -- powers of two, floats stay exact
+KSPELL = ["int", "float", "npint", "npfloat"]
+KUNITS = [1, 1, 0.5, 1, 2.0 ** 30, 1, 2.0 ** -20]
+# how the ARGUMENTS are spelled: 0 = all given; 1 = nvars omitted; 2 = locals=None when the text needs none;
+# 3 = nvars / empty locals / the default variables='x' omitted, a single condition handed over as the bare function
+APIS = 4
+
+
+def api_kwds(sch, loc, api):
+    kw = {"variables": sch.variables, "nvars": sch.dim, "locals": dict(loc)}
+    if api in (1, 3):
+        del kw["nvars"]
+    if api == 2 and not loc:
+        kw["locals"] = None
+    if api == 3:
+        if not loc:
+            del kw["locals"]
+        if sch.variables == "x":
+            del kw["variables"]
+    return kw
+
+
+def spell_k(k, unit, spell):
+    import numpy
+    v = k * unit
+    if unit != 1 or spell == "float":
+        return float(v)
+    if spell == "npint":
+        return numpy.int64(v)
+    if spell == "npfloat":
+        return numpy.float64(v)
+    return int(v)
+
+
+def fresh(xin):
+    """the evaluation point once more in its own container (nothing evaluated may depend on an earlier call)"""
+    return xin if hasattr(xin, "shape") or isinstance(xin, tuple) else list(xin)
 
 
 def new_check(a):
@@ -68,37 +129,53 @@ class Compiler(object):
         self.ms, self.mp = ms, mp
         self.c = {}
 
-    def conditions(self, text, sch, loc):
-        key = ("c", text, repr(sch.variables), sch.dim, tuple(sorted(loc.items())))
+    def conditions(self, text, sch, loc, api=0):
+        key = ("c", text, repr(sch.variables), sch.dim, tuple(sorted(loc.items())), repr(sorted(loc.items())), api)
         v = self.c.get(key)
         if v is None:
-            v = self.c[key] = self.ms.generate_conditions(text, variables=sch.variables, nvars=sch.dim, locals=dict(loc))
+            v = self.c[key] = self.ms.generate_conditions(text, **api_kwds(sch, loc, api))
         return v
 
-    def penalty(self, text, sch, loc, fam, k, default_ptype):
-        key = ("p", text, repr(sch.variables), sch.dim, tuple(sorted(loc.items())), fam, k, default_ptype)
+    def split_penalty(self, text, sch, loc, cut, aslist, kw):
+        """the text handed to generate_conditions as a TUPLE (documented) or list of strings: lines [:cut] and [cut:]; the
+        nested result goes to generate_penalty as it is (default ptype: picked per condition by its name)"""
+        key = ("split", text, repr(sch.variables), sch.dim, repr(sorted(loc.items())), cut, aslist, repr(sorted(kw.items())))
         v = self.c.get(key)
         if v is None:
-            ineqf, eqf = self.conditions(text, sch, loc)
+            lines = L.text_lines(text)
+            parts = ("\n".join(lines[:cut]), "\n".join(lines[cut:]))
+            conds = self.ms.generate_conditions(list(parts) if aslist else parts, variables=sch.variables, nvars=sch.dim, locals=dict(loc))
+            v = self.c[key] = self.ms.generate_penalty(conds, **kw)
+        return v
+
+    def penalty(self, text, sch, loc, fam, k, default_ptype, api=0, kw=None):
+        kw = dict(kw or {}, k=k)
+        key = ("p", text, repr(sch.variables), sch.dim, repr(sorted(loc.items())), fam, repr(sorted((a, repr(b)) for a, b in kw.items())), default_ptype, api)
+        v = self.c.get(key)
+        if v is None:
+            ineqf, eqf = self.conditions(text, sch, loc, api)
+            bare = api == 3 and len(ineqf) + len(eqf) == 1           # "a penalty constraint function, or list of ..."
             if default_ptype:
-                v = self.ms.generate_penalty((ineqf, eqf), k=k)
+                v = self.ms.generate_penalty((ineqf + eqf)[0] if bare else (ineqf, eqf), **kw)
             else:
                 pi, pe = ptypes(self.mp, fam)
                 # the documented ways of saying which type goes with which condition, by rotation over the texts:
                 # nested lists mirroring (ineqf, eqf); ONE type for everything (texts whose lines are all of one
                 # kind); one flat list of conditions with one flat list of types
                 form = zlib.crc32(repr(key).encode()) % 3
-                if form == 1 and not (len(ineqf) and len(eqf)) and (len(ineqf) or len(eqf)):
-                    v = self.ms.generate_penalty((ineqf, eqf), ptype=(pi if len(ineqf) else pe), k=k)
+                if bare:
+                    v = self.ms.generate_penalty((ineqf + eqf)[0], ptype=(pi if len(ineqf) else pe), **kw)
+                elif form == 1 and not (len(ineqf) and len(eqf)) and (len(ineqf) or len(eqf)):
+                    v = self.ms.generate_penalty((ineqf, eqf), ptype=(pi if len(ineqf) else pe), **kw)
                 elif form == 2:
-                    v = self.ms.generate_penalty(list(ineqf) + list(eqf), ptype=[pi] * len(ineqf) + [pe] * len(eqf), k=k)
+                    v = self.ms.generate_penalty(list(ineqf) + list(eqf), ptype=[pi] * len(ineqf) + [pe] * len(eqf), **kw)
                 else:
-                    v = self.ms.generate_penalty((ineqf, eqf), ptype=([pi] * len(ineqf), [pe] * len(eqf)), k=k)
+                    v = self.ms.generate_penalty((ineqf, eqf), ptype=([pi] * len(ineqf), [pe] * len(eqf)), **kw)
             self.c[key] = v
         return v
 
     def constraint(self, text, sch, loc):
-        key = ("s", text, repr(sch.variables), sch.dim, tuple(sorted(loc.items())))
+        key = ("s", text, repr(sch.variables), sch.dim, repr(sorted(loc.items())))
         v = self.c.get(key)
         if v is None:
             v = self.c[key] = self.ms.generate_constraint(
@@ -120,6 +197,7 @@ def replay(ck, chunk):
     thorough = a.tier == "thorough"
     schemes = L.schemes_for(n, thorough)
     huge = L.huge_schemes(n)
+    tiny = [t for t in L.tiny_schemes(n) if t.scale ** 2 > 1e-300]      # the quadratic penalties must not underflow
     comp = Compiler(ms, mp)
     rendered = {}
     rot = random.Random(a.seed).randrange(1000)
@@ -133,13 +211,15 @@ def replay(ck, chunk):
         pens = [list(t) for t in c["p"]]
         if corrupt and idx % 89 == 0:
             lines[0][1] += 1
-            pens = [[t[0] + 1, t[1] + 16] for t in pens]
+            pens = [[t[0] + 1, t[1] + 16, t[2] + 16] for t in pens]
         deg1 = all(rc["kind"] in ("aff", "abs") for rc in recs)
         j = idx + rot
-        mode = "quarter" if j % 2 == 0 else "default"
+        # tolerance mode: the defaults (1e-15), tol=1/4 rel=0, or -- where TLC says that reading is defined -- tol=0 rel=1/4
+        mode = "default" if j % 2 else ("tolzero" if (j % 4 == 2 and c.get("rok")) else "quarter")
         sch = schemes[j % len(schemes)]
         if mode == "default" and deg1 and j % 3 == 0:
-            sch = huge[(j // 3) % len(huge)]
+            pool = list(huge) + [t for t in tiny if not getattr(t, "nonstrict_only", False) or L.no_tolerance(recs)]
+            sch = pool[(j // 3) % len(pool)]
         S = sch.scale
         rk = (tuple(s), sch.name)
         rd = rendered.get(rk)
@@ -151,28 +231,40 @@ def replay(ck, chunk):
         loc = dict(loc0)
         if mode == "quarter":
             loc.update(QUARTER)
+        elif mode == "tolzero":
+            loc.update(TOLZERO[(j // 4) % 2])
         nontriv = (not all(sat)) or any(q == 0 and v == 0 for q, v, e, r in lines)
         ck.case(nontrivial=nontriv, key=(name, tuple(s), tuple(x)))
         ops = "+".join(rc["op"] for rc in recs)
         tag = ops if len(recs) == 1 else "lines=%d" % len(recs)
-        xin = sch.point(x, ["float", "int", "array"][j % 3])
+        kind = KINDS[(j // 2) % len(KINDS)]
+        api = (j // 3) % APIS
+        kspell = KSPELL[(j // 5) % len(KSPELL)]
+        kunit = KUNITS[(j // 2) % len(KUNITS)]
+        hkw = [{}, {"h": 7}, {}, {"h": 0}][(j // 7) % 4]      # h is the ITERATIVE multiplier: pk = k*pow(h, n) with n = 0 here
+        if S != 1 and kind in ("npint", "intarray"):
+            kind = L.KIND_TWIN[kind]          # squares of huge int64 values wrap around: numpy's rule, not mystic's
+        xin = sch.point(x, kind)
+        for tagk in ("mode=" + mode, "kind=" + kind, "api=%d" % api, "k-as=" + kspell, "k-unit=%r" % kunit, "h=%s" % hkw.get("h", "omitted"),
+                     "unit=%s" % (sch.name.split("*")[1] if "*" in sch.name else "1"), "numbers=" + sch.numfmt,
+                     "layout=" + ("doc" if text.startswith("\n") else "other")):
+            ck.extra["spelling:" + tagk] = ck.extra.get("spelling:" + tagk, 0) + 1
         detail = {"run": name, "text": text, "variables": sch.variables, "nvars": sch.dim, "locals": loc, "scheme": sch.name,
-                  "mode": mode, "scale": S, "spec_point": x, "input": list(xin),
+                  "mode": mode, "scale": S, "spec_point": x, "input": [float(t) for t in xin], "input_kind": kind, "api": api,
                   "expected": {"lines[q,v,e,rhs]": lines, "sat": sat}}
 
         def viol(what, msg, extra=None):
             ck.violation("%s:%s:%s" % (name, tag, what), dict(detail, problem=msg, **(extra or {})),
-                         "%r (scheme %s, %s locals) at %r: %s" % (text, sch.name, mode, list(xin), msg))
+                         "%r (scheme %s, %s locals, %s input) at %r: %s" % (text, sch.name, mode, kind, list(xin), msg))
         try:
-            ineqf, eqf = comp.conditions(text, sch, loc)
+            ineqf, eqf = comp.conditions(text, sch, loc, api)
             exp_in = [ln for ln in lines if ln[0] == 0]
             exp_eq = [ln for ln in lines if ln[0] == 1]
             if len(ineqf) != len(exp_in) or len(eqf) != len(exp_eq):
                 viol("condition-lists", "generate_conditions returned %d inequality and %d equality conditions, the text has %d and %d" % (
                     len(ineqf), len(eqf), len(exp_in), len(exp_eq)))
                 continue
-            vals = [f(list(xin) if not hasattr(xin, "shape") else xin) for f in ineqf] + \
-                   [f(list(xin) if not hasattr(xin, "shape") else xin) for f in eqf]
+            vals = [f(fresh(xin)) for f in ineqf] + [f(fresh(xin)) for f in eqf]
             order = [k for k, ln in enumerate(lines) if ln[0] == 0] + [k for k, ln in enumerate(lines) if ln[0] == 1]
             neq_unit = True
             for val, k in zip(vals, order):
@@ -196,75 +288,104 @@ def replay(ck, chunk):
                     if val != v + 0.25:
                         viol("value(%s)" % op, "line %d (%s): condition value %r, with tol=1/4 it is %r" % (k + 1, op, val, v + 0.25),
                              {"condition_value": val})
+                elif mode == "tolzero":
+                    if val != v + 0.25 * abs(r):
+                        viol("value(%s)" % op, "line %d (%s): condition value %r, with tol=0, rel=1/4 it is %r" % (k + 1, op, val, v + 0.25 * abs(r)),
+                             {"condition_value": val})
                 else:
                     t = tau(r * S)
                     if abs(val - v * S) > 2 * t + 2.3e-16 * abs(v * S):
                         viol("value(%s)" % op, "line %d (%s): condition value %r is not within the tolerance term %g of %r" % (
                             k + 1, op, val, t, v * S), {"condition_value": val})
-            # ---- penalties: every k for the default quadratic pair, one rotating k for the other families
+            # ---- penalties: every k (0 included) for the default quadratic pair, one rotating k for the other families
             todo = [("quad", ki, True) for ki in range(nk)] + [(fams[1 + (j + m) % (len(fams) - 1)], (j + m) % nk, False) for m in range(2)]
             todo.append(("quad", j % nk, False))
+            # lagrange penalties divide by k: k = 0 raises ZeroDivisionError (outside their domain)
+            todo = [t for t in todo if not (t[0] == "lagr" and ks[t[1]] == 0)]
             feasible = all(sat)
             for fam, ki, dflt in todo:
                 k = ks[ki]
-                lim, q16 = pens[fams.index(fam) * nk + ki]
-                pf = comp.penalty(text, sch, loc, fam, k, dflt)
-                got = float(pf(list(xin) if not hasattr(xin, "shape") else xin))
-                pd = {"penalty": got, "family": fam, "k": k, "spec_lim": lim, "spec_q16": q16}
-                if feasible and got != 0:
-                    viol("penalty-nonzero-on-feasible:%s" % fam, "%s penalty (k=%s) is %r at a point satisfying every line" % (fam, k, got), pd)
+                kreal = spell_k(k, kunit, kspell)
+                lim, q16, r16 = pens[fams.index(fam) * nk + ki]
+                pf = comp.penalty(text, sch, loc, fam, kreal, dflt, api, hkw)
+                got = float(pf(fresh(xin)))
+                pd = {"penalty": got, "family": fam, "k": repr(kreal), "kwds": hkw, "spec_k": k, "k_unit": kunit, "spec_lim": lim, "spec_q16": q16, "spec_r16": r16}
+                if (feasible or k == 0) and got != 0:
+                    viol("penalty-nonzero-on-feasible:%s" % fam if k else "penalty-nonzero-for-k=0:%s" % fam,
+                         "%s penalty (k=%r) is %r at a point %s" % (fam, kreal, got, "satisfying every line" if feasible else "where k = 0 switches it off"), pd)
                     continue
-                if not feasible and not got > 0:
-                    viol("penalty-not-positive:%s" % fam, "%s penalty (k=%s) is %r at a point violating a line" % (fam, k, got), pd)
+                if not feasible and k != 0 and not got > 0:
+                    viol("penalty-not-positive:%s" % fam, "%s penalty (k=%r) is %r at a point violating a line" % (fam, kreal, got), pd)
                     continue
                 if not neq_unit:
                     continue
-                if mode == "quarter":
-                    if got != q16 / 16.0:
-                        viol("penalty-sum:%s" % fam, "%s penalty (k=%s) is %r, the sum of the documented per-line terms is %r" % (
-                            fam, k, got, q16 / 16.0), pd)
+                if mode in ("quarter", "tolzero"):
+                    want = ((q16 if mode == "quarter" else r16) / 16.0) * kunit
+                    if got != want:
+                        viol("penalty-sum:%s" % fam, "%s penalty (k=%r) is %r, the sum of the documented per-line terms is %r" % (
+                            fam, kreal, got, want), pd)
                 else:
                     base = lim * float(S) ** FAMDEG[fam] if fam != "unif" else float(lim)
                     # '!=' lines contribute k*1 whatever the scale: TLC's lim counts them once per unit; rescale apart
                     if S != 1 and fam != "unif":
                         nneq = sum(1 for kk, ln in enumerate(lines) if recs[kk]["op"] == "!=" and not sat[kk])
                         base = (lim - k * nneq) * float(S) ** FAMDEG[fam] + k * nneq
+                    base *= kunit
                     coef, deg = INEQ_TERM[fam]
                     slack = 0.0
                     for kk, (q, v, e, r) in enumerate(lines):
                         if e == 1 and not sat[kk]:
                             t2 = 2 * tau(r * S) + 2.3e-16 * abs(v * S)
-                            slack += coef * k * ((v * S + t2) ** deg - (v * S) ** deg)
+                            slack += coef * k * kunit * ((v * S + t2) ** deg - (v * S) ** deg)
                     if not (got >= base * (1 - 1e-15) and got <= (base + slack) * (1 + 1e-12)):
-                        viol("penalty-sum:%s" % fam, "%s penalty (k=%s) is %r, the sum of the documented per-line terms is %r (+ at most %g of tolerance terms)" % (
-                            fam, k, got, base, slack), pd)
+                        viol("penalty-sum:%s" % fam, "%s penalty (k=%r) is %r, the sum of the documented per-line terms is %r (+ at most %g of tolerance terms)" % (
+                            fam, kreal, got, base, slack), pd)
+            # ---- the same text as a tuple / list of strings (documented alternative input of generate_conditions)
+            if len(recs) >= 2 and j % 3 == 0 and neq_unit:
+                cut = 1 + (j // 3) % (len(recs) - 1)
+                kreal = spell_k(ks[j % nk], kunit, kspell)
+                one = float(comp.penalty(text, sch, loc, "quad", kreal, True, api, hkw)(fresh(xin)))
+                try:
+                    two = float(comp.split_penalty(text, sch, loc, cut, (j // 6) % 2 == 1, dict(hkw, k=kreal))(fresh(xin)))
+                    # (the terms are added in another order: exact in the dyadic modes, one rounding apart otherwise)
+                    if two != one and (mode != "default" or abs(two - one) > 1e-14 * abs(one)):
+                        viol("tuple-of-strings-differs", "the penalty of the text given as %s of strings (lines[:%d], lines[%d:]) is %r, as one string %r" % (
+                            "a list" if (j // 6) % 2 else "a tuple", cut, cut, two, one), {"penalty": two})
+                except Exception as ex:
+                    viol("tuple-of-strings-raises:%s" % type(ex).__name__, "the text given as a tuple of strings raised %r" % ex)
             # ---- the conditions joined by a coupler (join=and_): zero exactly where every line holds, positive elsewhere
             if j % 4 == 1 and neq_unit:
                 from mystic.coupler import and_ as _pand
-                pj = comp.c.get(("join", text, sch.name, mode))
+                kj = ks[1 + j % (nk - 1)] if ks[0] == 0 and nk > 1 else ks[j % nk]           # a positive multiplier
+                pj = comp.c.get(("join", text, sch.name, mode, kj))
                 if pj is None:
-                    pj = comp.c[("join", text, sch.name, mode)] = ms.generate_penalty((ineqf, eqf), join=_pand, k=ks[j % nk])
-                gotj = float(pj(list(xin) if not hasattr(xin, "shape") else xin))
+                    pj = comp.c[("join", text, sch.name, mode, kj)] = ms.generate_penalty((ineqf, eqf), join=_pand, k=kj)
+                gotj = float(pj(fresh(xin)))
                 if (gotj == 0) != feasible or gotj < 0:
                     viol("joined-penalty(and_):%s" % ("nonzero-on-feasible" if feasible else "not-positive"),
                          "generate_penalty(conditions, join=and_) is %r at a point that %s" % (
                              gotj, "satisfies every line" if feasible else "violates a line"), {"penalty": gotj})
             # ---- cross property: penalty(constraint(x)) == 0
-            if c["ind"]:
+            # (with tol = 0 the tolerance of a line vanishes where its right-hand side is 0: a '!=' line cannot move the
+            # point there -- the user switched the tolerance off; TLC's `rok` says the same for the strict lines)
+            if c["ind"] and not (mode == "tolzero" and any(rc["op"] == "!=" and ln[3] == 0 for rc, ln in zip(recs, lines))):
                 cons = comp.constraint(text, sch, loc)
-                y = cons(sch.point(x, ["float", "int", "array"][j % 3]))
-                for fam, ki, dflt in todo[:1] + todo[3:]:
-                    pf = comp.penalty(text, sch, loc, fam, ks[ki], dflt)
+                ckind = kind if kind in WRITABLE else ("intarray" if kind == "intarray" and S == 1 and L.no_tolerance(recs) else "float")
+                y = cons(sch.point(x, ckind))
+                for fam, ki, dflt in todo[:nk] + todo[-1:]:
+                    if ks[ki] == 0:
+                        continue
+                    pf = comp.penalty(text, sch, loc, fam, spell_k(ks[ki], kunit, kspell), dflt, api, hkw)
                     got = float(pf(y))
                     if got != 0:
                         viol("penalty-after-constraint:%s" % fam, "penalty(constraint(x)) = %r for %s (k=%s), constraint(x) = %r" % (
-                            got, fam, ks[ki], list(y)), {"constrained": list(y)})
+                            got, fam, ks[ki], list(y)), {"constrained": [float(t) for t in y]})
                 ck.trace()
             if sampled < 3 and nontriv and len(recs) > 1 and not all(sat) and sch is not schemes[0]:
                 sampled += 1
-                ck.sample({"run": name, "text": text, "variables": sch.variables, "nvars": sch.dim, "locals": loc, "point": list(xin),
+                ck.sample({"run": name, "text": text, "variables": sch.variables, "nvars": sch.dim, "locals": loc, "point": [float(t) for t in xin],
                            "condition_values": [float(v) for v in vals], "spec_lines[q,v,e,rhs]": lines, "spec_sat": sat,
-                           "spec_penalties[lim,q16] (families %s x k %s)" % (fams, ks): pens})
+                           "spec_penalties[lim,q16,r16] (families %s x k %s)" % (fams, ks): pens})
         except Exception as ex:
             detail["error"] = repr(ex)
             if any(nm in "abs" for nm in sch.names) and "abs(" in text:
@@ -289,6 +410,10 @@ def explore(ck, a, runs, corrupt=False, only=None, stride=1):
             cases = cases[::stride]
         chunks = [(name, hdr, a, corrupt, sl) for sl in L.chunked(cases, 4 * a.jobs if len(cases) > 2000 else 1)]
         L.parallel_replay(ck, replay, chunks, a.jobs)
+    sp = {k[len("spelling:"):]: v for k, v in ck.extra.items() if k.startswith("spelling:")}
+    for k in [k for k in ck.extra if k.startswith("spelling:")]:
+        del ck.extra[k]
+    ck.extra["spellings_replayed"] = dict(sorted(sp.items()))       # how often each concrete spelling / unit was replayed
     ck.assumptions = [
         "evaluation points are integer vectors (times 2^40 / 2^60 in the huge-magnitude schemes) and coefficients small integers, "
         "so lhs-rhs and the penalties are computed exactly in IEEE arithmetic and compared with TLC's integers",
@@ -298,11 +423,115 @@ def explore(ck, a, runs, corrupt=False, only=None, stride=1):
         "barrier_inequality is not zero on the feasible set by its own documentation and is left to C15",
         "'!=' lines: only 'value = 0 iff the line holds' is demanded of the condition; the exact penalty sum is compared when the "
         "violated value is the truth value 1 (as implemented)",
-        "huge magnitudes rest on ScaleLemma of LinRel.tla (TLC: S in {2, 1000}; harness: S = 2^40, 2^60), degree-one texts only",
+        "huge and tiny magnitudes rest on ScaleLemma of LinRel.tla (TLC: S in {2, 1000}; harness: units 2^40, 2^60, 2^-30 and, for texts "
+        "without a tolerance term, 2^-400), degree-one texts only; numpy.int64 points only at unit 1 (squares of huge int64 wrap around)",
+        "k = 0 switches the penalty off (KZero): only 'penalty = 0' is demanded there; lagrange penalties divide by k and raise "
+        "ZeroDivisionError for k = 0 (outside their domain, not replayed); k = None raises TypeError although the docstring says "
+        "'default=None' (omitting k is the documented default and is what is replayed); fractional / huge k = k_TLC * 2^m: k is a factor of "
+        "the whole sum by the definition of the penalty in the spec",
+        "tol = 0, rel = 1/4 (reading r16) only where TLC says it is defined: every strict line has 0 < |rhs| < 4, so the tolerance "
+        "|rhs|/4 is positive and below the lattice spacing; penalty(constraint(x)) there additionally needs rhs != 0 on '!=' lines",
         "rendering of relation records as text (harness/linrel_common.py) is a documented bijection guarded against TLC's right-hand values"]
 
 
 # ------------------------------------------------------------------------------------------------
+# mutants that only the SPELLINGS / BOUNDARY VALUES added with the hardening can see (k in {1, 3, 100} as python ints,
+# tolerances 1e-15 or tol=1/4 rel=0, one-digit constants at unit 1 or 2^40 / 2^60, every argument given, conditions as the
+# pair (ineqf, eqf) behave as before under each of them).  At module level so that they can be run against an older check.
+_PATCHED = []
+
+
+def _patch(obj, attr, val):
+    _PATCHED.append((obj, attr, getattr(obj, attr)))
+    setattr(obj, attr, val)
+
+
+def unpatch_all():
+    while _PATCHED:
+        obj, attr, val = _PATCHED.pop()
+        setattr(obj, attr, val)
+
+
+def hardening_mutants():
+    import re
+    import mystic.symbolic as ms
+    import mystic.penalty as mp
+    orig_pp, orig_gp, orig_gcond = ms.penalty_parser, ms.generate_penalty, ms.generate_conditions
+    orig_qe = mp.quadratic_equality
+
+    def m_k_or_default():
+        # `k = kwds.get('k') or <default>`: the legal multiplier 0 is taken for 'not given'
+        def generate_penalty(conditions, ptype=None, join=None, **kwds):
+            if "k" in kwds and not kwds["k"]:
+                del kwds["k"]
+            return orig_gp(conditions, ptype, join, **kwds)
+        _patch(ms, "generate_penalty", generate_penalty)
+
+    def m_k_int():
+        # the multiplier is cast to int (documented as 'k (int)'): 0.5 and 2^-20 become 0
+        def generate_penalty(conditions, ptype=None, join=None, **kwds):
+            if "k" in kwds:
+                kwds["k"] = int(kwds["k"])
+            return orig_gp(conditions, ptype, join, **kwds)
+        _patch(ms, "generate_penalty", generate_penalty)
+
+    def m_tol_or_default():
+        # `tol = locals.get('tol') or 1e-15`: the legal tolerance 0 is taken for 'not given'
+        def generate_conditions(constraints, variables='x', nvars=None, locals=None):
+            if isinstance(locals, dict) and "tol" in locals and not locals["tol"]:
+                locals = dict(locals, tol=1e-15)
+            return orig_gcond(constraints, variables, nvars, locals)
+        _patch(ms, "generate_conditions", generate_conditions)
+
+    def m_bare_condition_dropped():
+        # 'a penalty constraint function, or list of ...': the single function is dropped instead of wrapped
+        def generate_penalty(conditions, ptype=None, join=None, **kwds):
+            if callable(conditions):
+                conditions = []
+            return orig_gp(conditions, ptype, join, **kwds)
+        _patch(ms, "generate_penalty", generate_penalty)
+
+    def m_first_string_only():
+        # a tuple / list of constraint strings: only the first string is compiled
+        def generate_conditions(constraints, variables='x', nvars=None, locals=None):
+            if not isinstance(constraints, str):
+                return (orig_gcond(constraints[0], variables, nvars, locals),)
+            return orig_gcond(constraints, variables, nvars, locals)
+        _patch(ms, "generate_conditions", generate_conditions)
+
+    def m_tiny_violation_ignored():
+        # quadratic_equality treats |f| <= 1e-8 as satisfied (tiny but not zero)
+        def quadratic_equality(condition=lambda x: 0., args=None, kwds=None, k=100, h=5):
+            return orig_qe(lambda x, *a_, **k_: (lambda v: v if abs(v) > 1e-8 else 0.0)(condition(x, *a_, **k_)), args, kwds, k, h)
+        quadratic_equality.__name__ = "quadratic_equality"
+        _patch(mp, "quadratic_equality", quadratic_equality)
+
+    def m_ndim_off_by_one():
+        # nvars omitted: the number of variables read off the text is one too small
+        def penalty_parser(constraints, variables='x', nvars=None):
+            if nvars is None and isinstance(variables, str):
+                found = [int(v[len(variables):]) for v in ms.get_variables(constraints, variables)]
+                if found:
+                    nvars = max(found)
+            return orig_pp(constraints, variables=variables, nvars=nvars)
+        _patch(ms, "penalty_parser", penalty_parser)
+
+    def m_two_digit_coefficient():
+        # of a coefficient with several digits only the last digit is read ('10*x1' -> '0*x1', '12*x1' -> '2*x1')
+        def penalty_parser(constraints, variables='x', nvars=None):
+            return orig_pp(re.sub(r"(?<![\w.])\d+(\d)(\.?\d*)\s*\*", r"\1\2*", constraints), variables=variables, nvars=nvars)
+        _patch(ms, "penalty_parser", penalty_parser)
+
+    return [("generate_penalty: `k or default` (k = 0 taken for missing)", m_k_or_default, ["pen1"]),
+            ("generate_penalty: multiplier cast to int (k = 0.5, 2^-20)", m_k_int, ["pen1"]),
+            ("generate_conditions: `tol or default` (tol = 0 taken for missing)", m_tol_or_default, ["pen1"]),
+            ("generate_penalty drops a condition handed over as the bare function", m_bare_condition_dropped, ["pen1"]),
+            ("generate_conditions compiles only the first of a tuple of strings", m_first_string_only, ["pen2"]),
+            ("quadratic_equality ignores violations below 1e-8 (tiny but not zero)", m_tiny_violation_ignored, ["pen1", "pen2"]),
+            ("nvars omitted: number of variables read off the text is one too small", m_ndim_off_by_one, ["pen1"]),
+            ("only the last digit of a multi-digit coefficient is read", m_two_digit_coefficient, ["penlong"])]
+
+
 def selftest(a, runs):
     import re
     import mystic.symbolic as ms
@@ -315,7 +544,7 @@ def selftest(a, runs):
     ck0 = new_check(a)
     ck0.outdir = "/dev/shm/verif_selftest_C14"
     with contextlib.redirect_stdout(io.StringIO()):
-        explore(ck0, a, runs, only=only, stride=3)
+        explore(ck0, a, runs, only=only + ["penlong"], stride=3)
     baseline = set(ck0.viol_keys)
 
     def wrap_pp(fi, fe=None, swap=False):
@@ -385,8 +614,11 @@ def selftest(a, runs):
                ("linear_equality without abs()", m_linear_signed, False),
                ("index replacement reads x10/x11 as x1", m_x10, False),
                ("corrupted expectation from TLC", lambda: None, True)]
+    mutants = [(nm, mut, corrupt, only) for nm, mut, corrupt in mutants]
+    mutants += [(nm, mut, False, sel) for nm, mut, sel in hardening_mutants()]
+    mutants.append(("corrupted expectation from TLC (multi-digit run)", lambda: None, True, ["penlong"]))
     missed = 0
-    for nm, mut, corrupt in mutants:
+    for nm, mut, corrupt, only in mutants:
         mut()
         ck = new_check(a)
         ck.outdir = "/dev/shm/verif_selftest_C14"
@@ -399,6 +631,7 @@ def selftest(a, runs):
         ms.penalty_parser, ms.generate_penalty, mm.tolerance = orig_pp, orig_gp, orig_tol
         for k, v in orig_pen.items():
             setattr(mp, k, v)
+        unpatch_all()
         new = [k for k in sorted(ck.viol_keys) if k not in baseline]
         print("SELFTEST %s: %s (%d violations, e.g. %s)" % (nm, "caught" if new else "MISSED", ck.violations, new[:2]))
         missed += 0 if new else 1
@@ -414,14 +647,14 @@ def replay_artefact(path):
     import mystic.symbolic as ms
     d = json.load(open(path))["detail"]
     ineqf, eqf = ms.generate_conditions(d["text"], variables=d["variables"], nvars=d["nvars"], locals=dict(d["locals"]))
-    x = list(d["input"])
+    x = L.container(list(d["input"]), d.get("input_kind", "float"))        # the recorded container spelling of the point
     lines, sat = d["expected"]["lines[q,v,e,rhs]"], d["expected"]["sat"]
     order = [k for k, ln in enumerate(lines) if ln[0] == 0] + [k for k, ln in enumerate(lines) if ln[0] == 1]
-    vals = [float(f(list(x))) for f in ineqf] + [float(f(list(x))) for f in eqf]
+    vals = [float(f(fresh(x))) for f in ineqf] + [float(f(fresh(x))) for f in eqf]
     ok = len(vals) == len(lines)
     for val, k in zip(vals, order):
         ok = ok and (((val == 0) if lines[k][0] else (val <= 0)) == sat[k])
-    pen = float(ms.generate_penalty((ineqf, eqf), k=1)(list(x)))
+    pen = float(ms.generate_penalty((ineqf, eqf), k=1)(fresh(x)))
     ok = ok and ((pen == 0) == all(sat)) and pen >= 0
     print("%r (variables=%r, locals=%r) at %r: conditions %r (inequalities first), default penalty k=1: %r" % (
         d["text"], d["variables"], d["locals"], x, vals, pen))
